@@ -141,10 +141,16 @@ def check(repo: Repo, run: Run) -> None:
     n_loops = 0
     eof_raising: dict = {}
     # module-level helpers first (seek_until), then the parser's methods
+    import ast as _ast
+    kb = repo.cls("kd_buf_parser", "KdBufParser")
+    used_by_parser = {n.id for m in kb.methods.values() for n in _ast.walk(m) if isinstance(n, _ast.Name)}
     for fn in mod.functions.values():
         if fn.args.args:
+            if fn.name in used_by_parser and any(isinstance(x, _ast.Yield) for x in _ast.walk(fn)):
+                # a generator helper of the parse methods (`for raw in _read_records(reader, n): yield decode(raw)`): its loops
+                # are judged where they run, together with what the consumer does with each raw record
+                continue
             n_loops += analyse_loops(repo, run, interp, mod, fn, None, param(fn.args.args[0].arg), eof_raising)
-    kb = repo.cls("kd_buf_parser", "KdBufParser")
     for name, fn in kb.methods.items():
         if len(fn.args.args) >= 2 and name.startswith("parse"):
             n_loops += analyse_loops(repo, run, interp, mod, fn, kb, param(fn.args.args[1].arg), eof_raising)
@@ -154,14 +160,26 @@ def check(repo: Repo, run: Run) -> None:
     n_calls = 0
     seen_sites = set()
     from .. import streams as _st
-    units = [(None, f) for f in mod.functions.values()] + [(kb, m) for m in kb.methods.values()]
+    # the public parse methods first: a decode call inside a helper they drive (a generator over raw records, a map) is seen
+    # there with its argument resolved; a helper looked at on its own only shows "an element of my parameter"
+    units = [(kb, m) for n_, m in kb.methods.items() if n_.startswith("parse")] + \
+        [(kb, m) for n_, m in kb.methods.items() if not n_.startswith("parse")] + [(None, f) for f in mod.functions.values()]
     for cls_, fn in units:
         rec = interp.run(mod, fn, self_cls=cls_)
-        for c in rec.calls:
+        own_params = {param(a_.arg) for a_ in fn.args.args}
+        # one call site may be recorded more than once (a generator helper seen as the comprehension it equals and again as
+        # the loop it drives): the occurrence whose argument is resolved furthest is the one judged
+        def _resolved(c_):
+            return not any(x.op == "elem" and x.a[0].op == "call" and x.a[0].a[0].op == "func" for a_ in c_.args for x in sym.walk(a_))
+        ordered = sorted(rec.calls, key=lambda c_: (0 if _resolved(c_) else 1, c_.seq))
+        for c in ordered:
             if c.func.op == "func" and c.func.a[0].endswith("kevent.from_kd_buf") and (c.lineno, c.col) not in seen_sites:
+                arg = c.args[0] if len(c.args) == 1 else None
+                if arg is not None and not fn.name.startswith("parse") and any(
+                        x.op == "elem" and sym.root_of(x.a[0]) in own_params for x in sym.walk(arg)):
+                    continue        # an element of the helper's own parameter: judged where the helper is driven from
                 seen_sites.add((c.lineno, c.col))
                 n_calls += 1
-                arg = c.args[0] if len(c.args) == 1 else None
                 rd = None
                 if arg is not None:
                     for x in sym.walk(arg):
